@@ -91,7 +91,8 @@ def run(ctx):
         aa = conv(q, a)
         if aa is not None:
             ctx.count("relations/self_conversion")
-            exact = a.prefix.base == 0
+            # an integer beyond 2**53 is not representable once the plan multiplies by its float ratio 1.0
+            exact = a.prefix.base == 0 and not (isinstance(mag, int) and abs(mag) > 2**53)
             if (exact and aa.magnitude != mag) or rel_diff(aa.magnitude, mag) > R12:
                 ctx.violation("C05:self-conversion-changes-magnitude", f"({mag!r} {a}).in_unit(same) = {aa.magnitude!r}", case)
         # zero and sign
